@@ -735,7 +735,9 @@ class ItemGrader(AbstractGrader):
             # that cannot be used leaves the grader exactly as it was.
             answers = self.post_schema_ans_val(self.schema_answers(inferred))
 
-            # Create the debug log...
+            # Create the debug log (refusing non-text input first, so that a
+            # rejected call does not leave a half-initialized log behind)...
+            student_input = self.ensure_text_inputs(student_input)
             self.create_debuglog(student_input)
             # ... so that we can add the inferred answers to it before
             # calling AbstractGrader.__call__
